@@ -655,8 +655,44 @@ fn required(parent: &Core, side: Side) -> u8 {
     }
 }
 
+/// Level of the Mamba grammar at which a binary operator is parsed, if it is parsed as a chain.
+///
+/// Operators of one level are nested to the right by the parser, which does not record
+/// parentheses either: `a - b - c` and `a - (b - c)` are the same tree.
+fn chain_level(core: &Core) -> Option<u8> {
+    match core {
+        Core::Mul { .. } | Core::Div { .. } | Core::FDiv { .. } | Core::Mod { .. } => Some(3),
+        Core::Add { .. } | Core::Sub { .. } => Some(4),
+        Core::BLShift { .. }
+        | Core::BRShift { .. }
+        | Core::BAnd { .. }
+        | Core::BOr { .. }
+        | Core::BXOr { .. } => Some(5),
+        Core::Ge { .. }
+        | Core::Geq { .. }
+        | Core::Le { .. }
+        | Core::Leq { .. }
+        | Core::Eq { .. }
+        | Core::Neq { .. }
+        | Core::Is { .. }
+        | Core::IsN { .. }
+        | Core::In { .. } => Some(6),
+        Core::And { .. } | Core::Or { .. } => Some(7),
+        _ => None,
+    }
+}
+
 /// Print an operand of `parent`, within parentheses if it would otherwise bind differently.
+///
+/// A right operand of the same grammar level as its parent is what the parser makes of an
+/// operator chain written without parentheses, so it is printed as such a chain.
 fn operand(child: &Core, parent: &Core, side: Side, ind: usize) -> String {
+    if side == Side::Right
+        && chain_level(parent).is_some()
+        && chain_level(parent) == chain_level(child)
+    {
+        return to_py(child, ind);
+    }
     protect(child, required(parent, side), ind)
 }
 
